@@ -1,129 +1,170 @@
-//! Linear-scan stand-ins for `std::collections::{HashMap, HashSet}` with the same API contract
-//! (documented stub: hashbrown's SIMD group probing is the cost wall for CBMC, see DESIGN §2).
-//! Only the methods the extracted kernels call are provided.
+//! Inline-storage stand-ins for `std::collections::{HashMap, HashSet, BinaryHeap}` and a small `Vec`,
+//! with the same API contract (documented stubs).  Two measured reasons (DESIGN §2):
+//!  * hashbrown's SIMD group probing is the cost wall for CBMC (no answer in 7 min for 2 inserts);
+//!  * values that pass through heap buffers lose CBMC's constant propagation, after which every
+//!    loop unwinds to its bound on every path (a 2-batch scenario exhausted 62 GB).
+//! Only the methods the extracted kernels call are provided.  Ordering / hashing of *elements*
+//! still comes from the real `Ord` / `Eq` impls of the qbice types stored in them.
 use std::borrow::Borrow;
 use std::marker::PhantomData;
+use std::mem::ManuallyDrop;
+
+pub const MAP_CAP: usize = 6;
 
 pub struct HashMap<K, V, S = ()> {
     // never dropped (leaked): keeps the drop glue of the containing structs trivial for CBMC;
     // leaks are not a checked property and no harness depends on element destructors of a map
-    items: std::mem::ManuallyDrop<Vec<(K, V)>>,
+    slots: ManuallyDrop<[Option<(K, V)>; MAP_CAP]>,
     _s: PhantomData<S>,
 }
 impl<K, V, S> Default for HashMap<K, V, S> {
-    fn default() -> Self { HashMap { items: std::mem::ManuallyDrop::new(Vec::new()), _s: PhantomData } }
+    fn default() -> Self { HashMap { slots: ManuallyDrop::new([None, None, None, None, None, None]), _s: PhantomData } }
 }
 impl<K: Eq, V, S> HashMap<K, V, S> {
     pub fn with_hasher(_s: S) -> Self { Self::default() }
     fn pos<Q: ?Sized + Eq>(&self, k: &Q) -> Option<usize> where K: Borrow<Q> {
         let mut i = 0;
-        while i < self.items.len() {
-            if self.items[i].0.borrow() == k { return Some(i); }
+        while i < MAP_CAP {
+            if let Some((kk, _)) = &self.slots[i] { if kk.borrow() == k { return Some(i); } }
             i += 1;
         }
         None
     }
+    fn free(&self) -> usize {
+        let mut i = 0;
+        while i < MAP_CAP { if self.slots[i].is_none() { return i; } i += 1; }
+        panic!("shim HashMap capacity exceeded");
+    }
     pub fn get<Q: ?Sized + Eq>(&self, k: &Q) -> Option<&V> where K: Borrow<Q> {
-        match self.pos(k) { Some(i) => Some(&self.items[i].1), None => None }
+        match self.pos(k) { Some(i) => self.slots[i].as_ref().map(|kv| &kv.1), None => None }
     }
     pub fn get_mut<Q: ?Sized + Eq>(&mut self, k: &Q) -> Option<&mut V> where K: Borrow<Q> {
-        match self.pos(k) { Some(i) => Some(&mut self.items[i].1), None => None }
+        match self.pos(k) { Some(i) => self.slots[i].as_mut().map(|kv| &mut kv.1), None => None }
     }
     pub fn contains_key<Q: ?Sized + Eq>(&self, k: &Q) -> bool where K: Borrow<Q> { self.pos(k).is_some() }
     pub fn insert(&mut self, k: K, v: V) -> Option<V> {
         match self.pos(&k) {
-            Some(i) => Some(std::mem::replace(&mut self.items[i].1, v)),
-            None => { self.items.push((k, v)); None }
+            Some(i) => self.slots[i].replace((k, v)).map(|kv| kv.1),
+            None => { let f = self.free(); self.slots[f] = Some((k, v)); None }
         }
     }
     pub fn remove<Q: ?Sized + Eq>(&mut self, k: &Q) -> Option<V> where K: Borrow<Q> {
-        match self.pos(k) { Some(i) => Some(self.items.swap_remove(i).1), None => None }
+        match self.pos(k) { Some(i) => self.slots[i].take().map(|kv| kv.1), None => None }
     }
-    pub fn len(&self) -> usize { self.items.len() }
-    pub fn is_empty(&self) -> bool { self.items.is_empty() }
-    pub fn capacity(&self) -> usize { self.items.capacity() }
+    pub fn len(&self) -> usize {
+        let mut n = 0;
+        let mut i = 0;
+        while i < MAP_CAP { if self.slots[i].is_some() { n += 1; } i += 1; }
+        n
+    }
+    pub fn is_empty(&self) -> bool { self.len() == 0 }
+    pub fn capacity(&self) -> usize { MAP_CAP }
     pub fn shrink_to(&mut self, _min: usize) {}
-    pub fn iter(&self) -> impl Iterator<Item = (&K, &V)> { self.items.iter().map(|(k, v)| (k, v)) }
-    pub fn keys(&self) -> impl Iterator<Item = &K> { self.items.iter().map(|(k, _)| k) }
-    pub fn values(&self) -> impl Iterator<Item = &V> { self.items.iter().map(|(_, v)| v) }
-    pub fn values_mut(&mut self) -> impl Iterator<Item = &mut V> { self.items.iter_mut().map(|(_, v)| v) }
-    pub fn drain(&mut self) -> std::vec::Drain<'_, (K, V)> { self.items.drain(..) }
+    pub fn iter(&self) -> impl Iterator<Item = (&K, &V)> { self.slots.iter().filter_map(|s| s.as_ref().map(|kv| (&kv.0, &kv.1))) }
+    pub fn keys(&self) -> impl Iterator<Item = &K> { self.slots.iter().filter_map(|s| s.as_ref().map(|kv| &kv.0)) }
+    pub fn values(&self) -> impl Iterator<Item = &V> { self.slots.iter().filter_map(|s| s.as_ref().map(|kv| &kv.1)) }
+    pub fn values_mut(&mut self) -> impl Iterator<Item = &mut V> { self.slots.iter_mut().filter_map(|s| s.as_mut().map(|kv| &mut kv.1)) }
+    pub fn drain(&mut self) -> impl Iterator<Item = (K, V)> + '_ { self.slots.iter_mut().filter_map(|s| s.take()) }
     pub fn entry(&mut self, k: K) -> hash_map::Entry<'_, K, V> {
         match self.pos(&k) {
-            Some(idx) => hash_map::Entry::Occupied(hash_map::OccupiedEntry { items: &mut *self.items, idx }),
-            None => hash_map::Entry::Vacant(hash_map::VacantEntry { items: &mut *self.items, key: k }),
+            Some(idx) => hash_map::Entry::Occupied(hash_map::OccupiedEntry { slot: &mut self.slots[idx] }),
+            None => { let f = self.free(); hash_map::Entry::Vacant(hash_map::VacantEntry { slot: &mut self.slots[f], key: k }) }
         }
     }
 }
 impl<'a, K, V, S> IntoIterator for &'a HashMap<K, V, S> {
     type Item = (&'a K, &'a V);
-    type IntoIter = std::iter::Map<std::slice::Iter<'a, (K, V)>, fn(&'a (K, V)) -> (&'a K, &'a V)>;
+    type IntoIter = std::iter::FilterMap<std::slice::Iter<'a, Option<(K, V)>>, fn(&'a Option<(K, V)>) -> Option<(&'a K, &'a V)>>;
     fn into_iter(self) -> Self::IntoIter {
-        fn split<K, V>(kv: &(K, V)) -> (&K, &V) { (&kv.0, &kv.1) }
-        self.items.iter().map(split::<K, V> as fn(&'a (K, V)) -> (&'a K, &'a V))
+        fn split<K, V>(s: &Option<(K, V)>) -> Option<(&K, &V)> { s.as_ref().map(|kv| (&kv.0, &kv.1)) }
+        self.slots.iter().filter_map(split::<K, V> as fn(&'a Option<(K, V)>) -> Option<(&'a K, &'a V)>)
     }
 }
 pub mod hash_map {
     pub enum Entry<'a, K, V> { Occupied(OccupiedEntry<'a, K, V>), Vacant(VacantEntry<'a, K, V>) }
-    pub struct OccupiedEntry<'a, K, V> { pub(super) items: &'a mut Vec<(K, V)>, pub(super) idx: usize }
-    pub struct VacantEntry<'a, K, V> { pub(super) items: &'a mut Vec<(K, V)>, pub(super) key: K }
+    pub struct OccupiedEntry<'a, K, V> { pub(super) slot: &'a mut Option<(K, V)> }
+    pub struct VacantEntry<'a, K, V> { pub(super) slot: &'a mut Option<(K, V)>, pub(super) key: K }
     impl<'a, K, V> OccupiedEntry<'a, K, V> {
-        pub fn get(&self) -> &V { &self.items[self.idx].1 }
-        pub fn get_mut(&mut self) -> &mut V { &mut self.items[self.idx].1 }
-        pub fn insert(&mut self, v: V) -> V { std::mem::replace(&mut self.items[self.idx].1, v) }
+        pub fn get(&self) -> &V { &self.slot.as_ref().unwrap().1 }
+        pub fn get_mut(&mut self) -> &mut V { &mut self.slot.as_mut().unwrap().1 }
+        pub fn insert(&mut self, v: V) -> V { std::mem::replace(&mut self.slot.as_mut().unwrap().1, v) }
     }
     impl<'a, K, V> VacantEntry<'a, K, V> {
         pub fn insert(self, v: V) -> &'a mut V {
-            self.items.push((self.key, v));
-            let n = self.items.len() - 1;
-            &mut self.items[n].1
+            *self.slot = Some((self.key, v));
+            &mut self.slot.as_mut().unwrap().1
         }
     }
 }
 
 pub struct HashSet<T, S = ()> {
-    items: std::mem::ManuallyDrop<Vec<T>>,
+    slots: ManuallyDrop<[Option<T>; MAP_CAP]>,
     _s: PhantomData<S>,
 }
 impl<T, S> Default for HashSet<T, S> {
-    fn default() -> Self { HashSet { items: std::mem::ManuallyDrop::new(Vec::new()), _s: PhantomData } }
+    fn default() -> Self { HashSet { slots: ManuallyDrop::new([None, None, None, None, None, None]), _s: PhantomData } }
 }
-impl<T: std::fmt::Debug, S> std::fmt::Debug for HashSet<T, S> {
+impl<T, S> std::fmt::Debug for HashSet<T, S> {
     fn fmt(&self, f: &mut std::fmt::Formatter<'_>) -> std::fmt::Result { f.write_str("HashSet") }
 }
 impl<T: Eq, S> HashSet<T, S> {
     pub fn with_hasher(_s: S) -> Self { Self::default() }
     fn pos<Q: ?Sized + Eq>(&self, k: &Q) -> Option<usize> where T: Borrow<Q> {
         let mut i = 0;
-        while i < self.items.len() {
-            if self.items[i].borrow() == k { return Some(i); }
+        while i < MAP_CAP {
+            if let Some(x) = &self.slots[i] { if x.borrow() == k { return Some(i); } }
             i += 1;
         }
         None
     }
     pub fn contains<Q: ?Sized + Eq>(&self, k: &Q) -> bool where T: Borrow<Q> { self.pos(k).is_some() }
     pub fn insert(&mut self, v: T) -> bool {
-        if self.pos(&v).is_some() { false } else { self.items.push(v); true }
+        if self.pos(&v).is_some() { return false; }
+        let mut i = 0;
+        while i < MAP_CAP { if self.slots[i].is_none() { self.slots[i] = Some(v); return true; } i += 1; }
+        panic!("shim HashSet capacity exceeded");
     }
     pub fn remove<Q: ?Sized + Eq>(&mut self, k: &Q) -> bool where T: Borrow<Q> {
-        match self.pos(k) { Some(i) => { self.items.swap_remove(i); true } None => false }
+        match self.pos(k) { Some(i) => { self.slots[i] = None; true } None => false }
     }
-    pub fn len(&self) -> usize { self.items.len() }
-    pub fn is_empty(&self) -> bool { self.items.is_empty() }
-    pub fn iter(&self) -> std::slice::Iter<'_, T> { self.items.iter() }
+    pub fn len(&self) -> usize {
+        let mut n = 0;
+        let mut i = 0;
+        while i < MAP_CAP { if self.slots[i].is_some() { n += 1; } i += 1; }
+        n
+    }
+    pub fn is_empty(&self) -> bool { self.len() == 0 }
+    pub fn iter(&self) -> impl Iterator<Item = &T> { self.slots.iter().filter_map(|s| s.as_ref()) }
+}
+pub mod hash_set {
+    pub struct IntoIter<T> { pub(super) slots: [Option<T>; super::MAP_CAP], pub(super) next: usize }
+    impl<T> Iterator for IntoIter<T> {
+        type Item = T;
+        fn next(&mut self) -> Option<T> {
+            while self.next < super::MAP_CAP {
+                let i = self.next;
+                self.next += 1;
+                if let Some(x) = self.slots[i].take() { return Some(x); }
+            }
+            None
+        }
+    }
+    impl<T> std::fmt::Debug for IntoIter<T> {
+        fn fmt(&self, f: &mut std::fmt::Formatter<'_>) -> std::fmt::Result { f.write_str("IntoIter") }
+    }
 }
 impl<T, S> IntoIterator for HashSet<T, S> {
     type Item = T;
-    type IntoIter = std::vec::IntoIter<T>;
-    fn into_iter(self) -> Self::IntoIter { std::mem::ManuallyDrop::into_inner(self.items).into_iter() }
+    type IntoIter = hash_set::IntoIter<T>;
+    fn into_iter(self) -> Self::IntoIter { hash_set::IntoIter { slots: ManuallyDrop::into_inner(self.slots), next: 0 } }
 }
 impl<'a, T, S> IntoIterator for &'a HashSet<T, S> {
     type Item = &'a T;
-    type IntoIter = std::slice::Iter<'a, T>;
-    fn into_iter(self) -> Self::IntoIter { self.items.iter() }
-}
-pub mod hash_set {
-    pub type IntoIter<T> = std::vec::IntoIter<T>;
+    type IntoIter = std::iter::FilterMap<std::slice::Iter<'a, Option<T>>, fn(&'a Option<T>) -> Option<&'a T>>;
+    fn into_iter(self) -> Self::IntoIter {
+        fn r<T>(s: &Option<T>) -> Option<&T> { s.as_ref() }
+        self.slots.iter().filter_map(r::<T> as fn(&'a Option<T>) -> Option<&'a T>)
+    }
 }
 
 /// Stand-in for `std::collections::BinaryHeap` (max-heap by `Ord`): linear scan over option slots.
@@ -137,8 +178,13 @@ pub struct BinaryHeap<T> {
     slots: [Option<T>; HEAP_CAP],
 }
 pub const HEAP_CAP: usize = 5;
+impl<T> std::fmt::Debug for BinaryHeap<T> {
+    fn fmt(&self, f: &mut std::fmt::Formatter<'_>) -> std::fmt::Result { f.write_str("BinaryHeap") }
+}
+impl<T> BinaryHeap<T> {
+    pub const fn new() -> Self { BinaryHeap { slots: [None, None, None, None, None] } }
+}
 impl<T: Ord> BinaryHeap<T> {
-    pub fn new() -> Self { BinaryHeap { slots: [None, None, None, None, None] } }
     pub fn push(&mut self, t: T) {
         let mut i = 0;
         while i < HEAP_CAP {
